@@ -108,6 +108,30 @@ class ShrinkHit(Exception):
     pass
 
 
+class CaseHang(BaseException):
+    """A single library call on a small generated case did not return in time."""
+
+
+class watchdog(object):
+    """Bound one oracle execution by wall-clock seconds (SIGALRM).  Only used to turn a
+    non-returning library call into a reportable event; never a correctness signal for
+    calls that do return."""
+
+    def __init__(self, seconds):
+        self.seconds = seconds
+
+    def __enter__(self):
+        def on_alarm(signum, frame):
+            raise CaseHang()
+        self.old = signal.signal(signal.SIGALRM, on_alarm)
+        signal.setitimer(signal.ITIMER_REAL, self.seconds)
+
+    def __exit__(self, *a):
+        signal.setitimer(signal.ITIMER_REAL, 0)
+        signal.signal(signal.SIGALRM, self.old)
+        return False
+
+
 class _Timeout(KeyboardInterrupt):
     pass
 
@@ -127,25 +151,19 @@ def hyp_run(strategy, body, seed, max_examples, rec, shrink=False, timeout=None)
               suppress_health_check=list(HealthCheck), verbosity=hypothesis.Verbosity.quiet)
     @given(strategy)
     def t(case):
+        if timeout and time.time() - t_start > timeout:
+            raise _Timeout()
         rec.cases += 1
         body(case, rec)
 
-    old = None
-    if timeout:
-        def on_alarm(signum, frame):
-            raise _Timeout()
-        old = signal.signal(signal.SIGALRM, on_alarm)
-        signal.alarm(int(timeout))
+    t_start = time.time()
+
     try:
         t()
     except ShrinkHit:
         pass
     except _Timeout:
         rec.notes['shrink-timeout'] += 1
-    finally:
-        if timeout:
-            signal.alarm(0)
-            signal.signal(signal.SIGALRM, old)
 
 
 # ---------------------------------------------------------------------------
